@@ -32,7 +32,9 @@ AXES = dict(
     rot=[1.0, 0.5, 1.375, 1.3, 0.7], imp=["collimator", "none", "csr"], track=[False, True], renorm=[0, -1, 2],
     ring=["default", "R=5.559,H=184,V=1.4e6,E=2.5e9", "pq=10,F=2.7e6"],
     # how the run starts: the built-in Gaussian, a results file written beforehand, the same without any renormalisation
-    start=["builtin", "file", "file-norenorm"])
+    start=["builtin", "file", "file-norenorm"],
+    # cut-off of the recorded CSR spectrum: the program's default (23 GHz), none at all, one inside the recorded band
+    cutoff=[None, 0, 3e11])
 STARTFILE = {}
 IMP = {"none": ["-G", 0], "collimator": ["-G", -0.03, "--UseCSR", "false", "--CollimatorRadius", 0.002], "csr": ["-G", -0.03]}
 FS = 9e5    # synchrotron frequency dialled so that the bucket spacing is 1.39 phase spaces (keeps the multi-bunch transform short)
@@ -78,6 +80,8 @@ def args_of(c, trackfile):
         a += ["-i", STARTFILE[c["n"]]]
     if c["track"]:
         a += ["--tracking", trackfile, "--FPTrack", 1]
+    if c.get("cutoff") is not None:
+        a += ["--CutoffFreq", c["cutoff"]]
     a += ["-I"] + c["fill"]
     return a
 
@@ -282,6 +286,19 @@ def structure(res, tier, exe_hook):
         res.eval(case, pl.chash(case, ob["labels"]), trivial=False)
         for kind, detail in probs:
             res.violate("C10/structure/%s" % kind, case, detail, replay=dict(cmd=ob["cmd"], model=dict(tm, trace=" ".join(tm["trace"]))))
+        # the axes a dataset DECLARES (soft links <group>/axisK -> axis dataset): a dataset has as many entries along dimension K as the axis it names
+        doc = ob["doc"]
+        if "error" not in doc:
+            for lk, target in sorted(doc.get("links", {}).items()):
+                grp, ax = lk.rsplit("/axis", 1)
+                d, a = doc["datasets"].get(grp + "/data"), doc["datasets"].get(target)
+                # axis0 is the record dimension (the other axis links name the last dimension, with the bunch index in between); a dataset that was
+                # never written (no wake impedance, no step executed) holds no records and describes nothing
+                if d is None or a is None or ax != "0" or not d["dims"] or d["dims"][0] == 0:
+                    continue
+                if d["dims"][int(ax)] != (a["dims"][0] if a["dims"] else 0):
+                    res.violate("C10/structure/declared-axis-length%s" % grp, case, "%s/data has %d entries along dimension %s but names %s (%d entries) as its axis" % (grp, d["dims"][int(ax)], ax, target, a["dims"][0] if a["dims"] else 0),
+                                replay=dict(cmd=ob["cmd"]))
     return st["distinct"], st["states"], n
 
 
